@@ -524,7 +524,7 @@ SPECS["C12"] = _server_spec(
     level_note="Trusted: Coq kernel, vm_compute, the Rust harness (scripted transport, virtual clock by clock_gettime interposition, hand polling) and the Python driver. Modelled, not verified: tokio bounded/unbounded mpsc, futures Abortable, Fuse, tokio-util DelayQueue (ms granularity; the order among several due timers is replayed by an executable copy of the timer wheel that no theorem depends on). Correspondence between coq/Server.v and the real BaseChannel/Requests/MaxRequests/execute is sampled (every transport call, yield, handler event and both gauges compared inside Coq), not proved. The observer/model simulation needed for the monitor theorem (coq/ServerSim*.v, ~2500 lines) is proved for the unconditional part of the invariant through every polling loop and the result of a poll (ServerSim6.top_poll); the remaining ops and the verdict flags are not threaded through it yet, so the monitor theorem itself is NOT claimed: the monitor is evaluated on the real code's traces on every run. Known finding K1 (FreedInSamePoll) is reproduced on every run from its committed witness. The expiry variant of K1 (capacity freed by an expiry in the same inner poll) is only visible to the model-level class, not to the observer's count.",
     assumptions=[SRV_ASSUME_ATOMIC])
 SPECS["C06"] = _server_spec(
-    "C06", [C06_PART], level_text="State-form theorems, for EVERY transport and every state (Properties/C06.v): the timer armed for a request is due at min(deadline, now + 365 days) or later (C06_timer_not_before_deadline; the F5 clamp is part of the statement); expiry only ever takes a due timer, aborts exactly that request and leaves the others (C06_expiry_never_early, C06_expiry_frame); when BaseChannel::poll_next goes idle no timer is due and no server-side cancel is pending (C06_idle_means_enforced); an aborted execute() never polls its handler again (C04_aborted_never_progresses). K2: with MaxRequests at its limit and the sink not ready the inner channel is not polled, so enforcement waits for the sink: witness theorem C06_limiter_blocked_on_sink_witness. The trace-level property (no abort before the timer is due; no handler progress and nothing written after the poll that had to process the expiry; other requests unaffected) is the executable monitor c06_ok / c06_rel_ok, evaluated on the real code's traces under a virtual clock stepped to deadline-1 / deadline / deadline+1, with deadlines from already expired to beyond the timer range, with and without limiter, sink ready or not; each script is also replayed on the model and compared.",
+    "C06", [C06_PART], level_text="State-form theorems, for EVERY transport and every state (Properties/C06.v): the timer armed for a request is due at min(deadline, now + 365 days) or later (C06_timer_not_before_deadline; the F5 clamp is part of the statement); expiry only ever takes a due timer, aborts exactly that request and leaves the others (C06_expiry_never_early, C06_expiry_frame); when BaseChannel::poll_next goes idle no timer is due and no server-side cancel is pending (C06_idle_means_enforced); an aborted execute() never polls its handler again (C04_aborted_never_progresses). Trace form, by induction over op lists with the observer/model simulation invariant (coq/ServerSim*.v): C06_never_early_monitor - in EVERY run, for every transport whose fuel measure decreases with each item it hands out, no execute() ends without its handler having completed unless the request's Cancel was read, its deadline timer was due or the channel was dropped, and the trace is well formed. K2: with MaxRequests at its limit and the sink not ready the inner channel is not polled, so enforcement waits for the sink: witness theorem C06_limiter_blocked_on_sink_witness. The trace-level property (no abort before the timer is due; no handler progress and nothing written after the poll that had to process the expiry; other requests unaffected) is the executable monitor c06_ok / c06_rel_ok, evaluated on the real code's traces under a virtual clock stepped to deadline-1 / deadline / deadline+1, with deadlines from already expired to beyond the timer range, with and without limiter, sink ready or not; each script is also replayed on the model and compared.",
     level_note="Trusted: Coq kernel, vm_compute, the Rust harness (scripted transport, virtual clock by clock_gettime interposition, hand polling) and the Python driver. Modelled, not verified: tokio bounded/unbounded mpsc, futures Abortable, Fuse, tokio-util DelayQueue (ms granularity; the order among several due timers is replayed by an executable copy of the timer wheel that no theorem depends on). Correspondence between coq/Server.v and the real BaseChannel/Requests/MaxRequests/execute is sampled (every transport call, yield, handler event and both gauges compared inside Coq), not proved. The observer/model simulation needed for the monitor theorem (coq/ServerSim*.v, ~2500 lines) is proved for the unconditional part of the invariant through every polling loop and the result of a poll (ServerSim6.top_poll); the remaining ops and the verdict flags are not threaded through it yet, so the monitor theorem itself is NOT claimed: the monitor is evaluated on the real code's traces on every run. Known finding K2 (LimiterBlockedOnSink) is reproduced on every run from its committed witness. Hypotheses: virtual clock below 2^35 ms (the DelayQueue's idle-wheel range is an environment hypothesis of C16); deadlines more than 365 days away are enforced after 365 days (F5 clamp); reuse_only_after_completion and stops_after_error for the clause 'no progress after expiry'.",
     assumptions=[SRV_ASSUME_ATOMIC, SRV_ASSUME_B1, SRV_ASSUME_STOP, SRV_ASSUME_CLOCK])
 SPECS["C04"] = _server_spec(
